@@ -97,3 +97,13 @@ Proof.
   - cbn [Scan.ok_doc Scan.safe print_seps flat_map print_rest app hd_error nxt_is]. auto.
   - discriminate.
 Qed.
+
+(* ---- C01 at the text level: any well-formed layout of any rendering compiles to the tree ---- *)
+Theorem text_render_then_compile : forall (d:Scan.doc) fin lead t (e:Pratt.expr value (list N)),
+  Forall wf_sep lead -> u_ok_doc d fin -> skip Normal fin = [] -> d <> [] ->
+  Pratt.Renders value (list N) t e (map (fun x => conv_tok (u_denote (fst x))) d) ->
+  Front.compile (print_seps lead ++ print_rest d fin) = COk (conv_expr e).
+Proof.
+  intros d fin lead t e Hl Hd Hf Hne R. unfold Front.compile. rewrite (scan_print_u d fin lead Hl Hd Hf Hne). rewrite map_map.
+  rewrite (Pratt.C01_render_then_compile value (list N) t e _ R). reflexivity.
+Qed.
